@@ -102,6 +102,11 @@ func checkDocumentShape(node *yaml.Node, target reflect.Type) error {
 			itemType = target.Elem()
 		}
 
+		// a list of free-form values (the arguments of a constraint): `~` is a value like any other
+		if itemType != nil && itemType.Kind() == reflect.Interface {
+			return nil
+		}
+
 		for _, item := range node.Content {
 			if isNullNode(item) {
 				return fmt.Errorf("line %d: empty list entry", item.Line)
